@@ -90,6 +90,9 @@ func minInt(a, b int) int {
 }
 
 func CheckC07(c *core.Case) error {
+	if c.Kind == "cold" {
+		return checkCold(c)
+	}
 	if len(c.Ints) < 3 {
 		return fmt.Errorf("bad case: need ints [kind, buffer config, strategy bits]")
 	}
